@@ -316,6 +316,16 @@ macro_rules! runner {
                     }
                   }))
                 }
+                6 => {
+                  // on the first item send an item into hot subject 2 (e.g. the notifier of the pipeline)
+                  let (mut subj, mut done) = (self.env.subjects[1].clone(), false);
+                  Some(Box::new(move |v: &Val| {
+                    if !done {
+                      done = true;
+                      subj.next(Val::I(w(v) + 20));
+                    }
+                  }))
+                }
                 4 => {
                   // peek() the BehaviorSubject this pipeline starts from, from inside the callback
                   let a = self.env.prog[root - 1].a;
